@@ -1198,6 +1198,10 @@ const EXPR_HOSTS: &[(&str, &str)] = &[
     ("%scan(a,", ")"),
     ("%substr(a,", ",1)"),
     ("%substr(a,1,", ")"),
+    // later arguments of the function inside %sysfunc: each follows the comma of an expression
+    // argument and gets its flags from the dispatcher, not from the call set-up
+    ("%sysfunc(f(1,", "))"),
+    ("%qsysfunc(f(1,2,", "),best.)"),
 ];
 
 pub fn flatten(pieces: &[Piece]) -> String {
@@ -1476,15 +1480,53 @@ fn c13_items(tier: Tier) -> Vec<Vec<Piece>> {
                                     continue;
                                 }
                                 if let Some(e) = build_expr(seq, un, (pos, sh), fb, fa) {
-                                    let mut v = vec![other(hp)];
-                                    v.extend(e);
-                                    v.push(other(hs));
-                                    items.push(v);
+                                    // blanks between the host's opener and the first operand, and
+                                    // between the last operand and the host's closer, are hidden too
+                                    // (short expressions only, to bound the product)
+                                    let edges: &[(&str, &str)] = if seq.len() <= 1 && fb.is_empty() {
+                                        &[("", ""), (" ", ""), ("\n ", " "), ("\u{a0}", ""), ("", " "), ("\t", "\n")]
+                                    } else {
+                                        &[("", "")]
+                                    };
+                                    for (lead, trail) in edges {
+                                        // (a trailing blank before a keyword-terminated host is part
+                                        // of the host's own suffix already)
+                                        if !trail.is_empty() && hs.starts_with(' ') || !lead.is_empty() && hp.ends_with(' ') {
+                                            continue;
+                                        }
+                                        let mut v = vec![other(hp), gap(lead)];
+                                        v.extend(e.iter().cloned());
+                                        v.push(gap(trail));
+                                        v.push(other(hs));
+                                        items.push(v);
+                                    }
                                 }
                             }
                         }
                     }
                 }
+            }
+        }
+    }
+    // what directly follows the keyword that ends an expression (%then, %to, %by): every kind of
+    // blank, a comment, a character that is neither blank nor part of a name - the look-ahead that
+    // recognises the keyword must end it where the keyword lexer does, or the operand before it is
+    // no longer an integer followed by hidden blanks
+    for (hp, kw, rest) in [
+        ("%if ", "%then", "%put a;"),
+        ("%if &a = ", "%then", "%put a;"),
+        ("%do i=", "%to", "5; %end;"),
+        ("%do i=1 %to ", "%by", "2; %end;"),
+        ("%do i=1 %to ", "%By", "2; %end;"),
+        ("%if ", "%THEN", "%do; %end;"),
+    ] {
+        for fb in [" ", "\n", "\u{a0}", "  ", "\t"] {
+            for follower in [
+                " ", "\n", "\t", "\r\n", "\u{a0}", "\u{3000}", "\u{b}", "\u{c}", "\u{85}", "\u{2028}", "\u{2003}", "/*c*/", "\u{200b}", "\u{feff}",
+                "\u{ac}", "\u{2019}",
+            ] {
+                let mut v = vec![other(hp), p("10", Kind::Int(10)), gap(fb), other(kw), other(follower), other(rest)];
+                items.push(std::mem::take(&mut v));
             }
         }
     }
